@@ -99,6 +99,8 @@ Variable d : sigdef.
 Variable pos0 : Z.
 Variable t0 : Z.
 Variable lo : nat.      (* levels below lo are no longer related (they are closed) *)
+Variable xs : wm_fx.     (* a reference state (the start of the current call) and the number of chunks then *)
+Variable n0 : nat.
 Hypothesis Hpos0 : (0 < pos0)%Z.
 
 Let pd := rf_pd d.
@@ -181,11 +183,26 @@ Definition rf_mine (c : rf_chunk) : bool :=
 
 Definition rf_out (x : wm_fx) : list rf_chunk := rp_out (rf_scan (wm_rlog (wm_b_raw (wm_fx_base x)))).
 
+(* since the reference state xs: the raw state only extended and ALL chunks appended are the last (length cs - n0) of cs *)
+Definition rf_dl (cs : list rf_chunk) (x : wm_fx) : Prop :=
+  rf_ext (wm_b_raw (wm_fx_base xs)) (wm_b_raw (wm_fx_base x)) /\ (n0 <= length cs)%nat /\
+  rf_out x = rev (skipn n0 cs) ++ rf_out xs.
+
+Lemma rf_dl_cons : forall cs c x x1, rf_dl cs x -> rf_ext (wm_b_raw (wm_fx_base x)) (wm_b_raw (wm_fx_base x1)) ->
+  rf_out x1 = c :: rf_out x -> rf_dl (cs ++ [c]) x1.
+Proof.
+  intros cs c x x1 (A & B & C) He Ho. split; [eapply rf_ext_trans; eauto|]. split; [rewrite app_length; lia|].
+  rewrite Ho, C. rewrite skipn_app. replace (n0 - length cs)%nat with 0%nat by lia. cbn [skipn]. rewrite rev_app_distr. reflexivity.
+Qed.
+Lemma rf_dl_same : forall cs x x', rf_dl cs x -> wm_fx_base x' = wm_fx_base x -> rf_dl cs x'.
+Proof. intros cs x x' (A & B & C) E. unfold rf_dl, rf_out in *. rewrite E. split; [exact A|]. split; assumption. Qed.
+
 (* the whole simulation state: cs = this signal's FSR chunks so far (oldest first), pre = those before the start *)
 Definition rf_S (pre cs : list rf_chunk) (blks : list (list N)) (x : wm_fx) (st : py_wr) : Prop :=
   rf_R (map rc_off cs) x st /\
   Forall2 (rf_chunk_rel (map rc_off cs) blks) cs (pw_disk st) /\
-  filter rf_mine (rf_out x) = rev cs ++ pre.
+  filter rf_mine (rf_out x) = rev cs ++ pre /\
+  rf_dl cs x.
 
 Hypothesis Hsid : sid < 256.
 
@@ -269,7 +286,7 @@ Lemma rf_sim_index : forall pre cs blks x st L lv,
   let st1 := py_set_head (py_emit st (PyIndex L) (pl_its pl) (Z.of_nat (length (pl_idx pl))) (pl_idx pl)) L (pw_pos st) in
   exists c, rf_S pre (cs ++ [c]) blks x1 st1 /\ rc_off c = wm_fend (wm_b_raw (wm_fx_base x)).
 Proof.
-  intros pre cs blks x st L lv (HR & HF & Hout) HL Hlo Hlv Hidx Hcap payload bt x1 pl st1.
+  intros pre cs blks x st L lv (HR & HF & Hout & Hdl) HL Hlo Hlv Hidx Hcap payload bt x1 pl st1.
   destruct HR as [Rbok Rtok Rty Rlvlen Rpos Rnz Rheads Rdhead Rlvls Rdts].
   pose proof (Rlvls L ltac:(lia)) as Hrel. rewrite Hlv in Hrel. fold pl in Hrel.
   destruct Hrel as (Hc1 & Hc2 & Hc3 & D1 & D2 & D3 & D4 & D5 & D6).
@@ -323,6 +340,7 @@ Proof.
       * rewrite wm_rev_eq, D3. symmetry. apply rf_psi_map_app. exact D4.
     + rewrite app_length. eapply Forall_impl; [|exact D4]. intros p Hp. apply rf_pvalid_app. exact Hp.
   - (* log *)
+    split; [|apply (rf_dl_cons cs c x x1 Hdl); [exact Hext|exact Hout']].
     unfold rf_out. cbn [wm_fx_base x1]. rewrite Hout'. apply rf_filter_cons_mine; [|exact Hout].
     unfold rf_mine. cbn [rc_tag rc_meta c]. rewrite Rty. rewrite rf_meta_sid by lia. rewrite (N.eqb_refl sid). reflexivity.
 Qed.
@@ -341,7 +359,7 @@ Lemma rf_sim_summary : forall pre cs blks x st L lv,
   let st1 := py_emit st (PySummary L) (pl_sts pl) (pl_sum pl) [] in
   exists c, rf_S pre (cs ++ [c]) blks x1 st1 /\ rc_off c = wm_fend (wm_b_raw (wm_fx_base x)).
 Proof.
-  intros pre cs blks x st L lv (HR & HF & Hout) HL Hlo Hlv Hidx Hcap payload bt x1 pl st1.
+  intros pre cs blks x st L lv (HR & HF & Hout & Hdl) HL Hlo Hlv Hidx Hcap payload bt x1 pl st1.
   destruct HR as [Rbok Rtok Rty Rlvlen Rpos Rnz Rheads Rdhead Rlvls Rdts].
   pose proof (Rlvls L ltac:(lia)) as Hrel. rewrite Hlv in Hrel. fold pl in Hrel.
   destruct Hrel as (Hc1 & Hc2 & Hc3 & D1 & D2 & D3 & D4 & D5 & D6).
@@ -386,7 +404,8 @@ Proof.
     exists (wm_rev (wm_fl_sum lv)). split.
     + rewrite D5. unfold rf_ln in Hlnrev. lia.
     + subst payload. rewrite Ests, D5, N2Z.id. reflexivity.
-  - unfold rf_out. cbn [wm_fx_base x1]. rewrite Hout'. apply rf_filter_cons_mine; [|exact Hout].
+  - split; [|apply (rf_dl_cons cs c x x1 Hdl); [exact Hext|exact Hout']].
+    unfold rf_out. cbn [wm_fx_base x1]. rewrite Hout'. apply rf_filter_cons_mine; [|exact Hout].
     unfold rf_mine. cbn [rc_tag rc_meta c]. rewrite Rty. rewrite rf_meta_sid by lia. rewrite (N.eqb_refl sid). reflexivity.
 Qed.
 
@@ -465,8 +484,8 @@ Lemma rf_S_change : forall pre cs blks x st x' st',
   rf_S pre cs blks x st -> rf_R (map rc_off cs) x' st' -> wm_fx_base x' = wm_fx_base x -> pw_disk st' = pw_disk st ->
   rf_S pre cs blks x' st'.
 Proof.
-  intros pre cs blks x st x' st' (_ & HF & Ho) HR Hb Hd. split; [exact HR|]. split; [rewrite Hd; exact HF|].
-  unfold rf_out in *. rewrite Hb. exact Ho.
+  intros pre cs blks x st x' st' (_ & HF & Ho & Hdl) HR Hb Hd. split; [exact HR|]. split; [rewrite Hd; exact HF|].
+  split; [unfold rf_out in *; rewrite Hb; exact Ho|]. eapply rf_dl_same; eauto.
 Qed.
 
 (* the two entry_count = 0 resets at the end of wr_summary *)
@@ -516,7 +535,7 @@ Proof.
   assert (HL : (1 <= L < 16)%nat) by lia.
   destruct wfuel as [|wf]; [lia|].
   cbn [wm_fsr_wr_summary py_wr_summary] in *. rewrite Hlv.
-  pose proof HS as (HR & HF & Hout).
+  pose proof HS as (HR & HF & Hout & Hdl).
   pose proof (R_lvls _ _ _ HR L ltac:(lia)) as Hrel. rewrite Hlv in Hrel.
   set (pl := py_lvl_get st L) in *.
   destruct Hrel as (Hc1 & Hc2 & Hc3 & D1 & D2 & D3 & D4 & D5 & D6).
@@ -571,7 +590,7 @@ Proof.
     unfold py_feed in Efeed. cbn [pred] in Efeed.
     assert (Hl2 : py_lvl_get st2 L = pl) by (subst st2; cbn; exact Hl1).
     rewrite Hl2 in Efeed.
-    pose proof HS2 as (HR2 & HF2 & Hout2).
+    pose proof HS2 as (HR2 & HF2 & Hout2 & Hdl2).
     set (entries := wm_rev (wm_fl_sum lv)) in *.
     set (nN := wm_fl_nsum lv / sg_sumdf d).
     set (new := map (summN (wm_summary_is64 (sg_dtype d))) (wm_groups (N.to_nat nN) (N.to_nat (sg_sumdf d)) entries)).
@@ -627,10 +646,11 @@ Proof.
     set (x4 := if (py_eps pd <=? pl_sum (py_lvl_get st3 (S L)))%Z then wm_fsr_wr_summary summN wf d (N.of_nat L + 1) x3 else x3) in *.
     exists ([c1] ++ [c2] ++ cs4).
     replace (cs ++ [c1] ++ [c2] ++ cs4) with (((cs ++ [c1]) ++ [c2]) ++ cs4) by (rewrite <- !app_assoc; reflexivity).
-    destruct HS4 as (HR4 & HF4 & Hout4).
+    destruct HS4 as (HR4 & HF4 & Hout4 & Hdl4).
     pose proof (rf_sim_reset _ x4 st4 L HR4 HL Hlo) as HR5.
     split; [exact HR5|]. split; [exact HF4|].
-    unfold rf_out in *. destruct (wm_f_get_level (wm_fx_fsr x4) (N.of_nat L)); exact Hout4.
+    split; [unfold rf_out in *; destruct (wm_f_get_level (wm_fx_fsr x4) (N.of_nat L)); exact Hout4|].
+    eapply rf_dl_same; [exact Hdl4|]. destruct (wm_f_get_level (wm_fx_fsr x4) (N.of_nat L)); reflexivity.
 Qed.
 
 
@@ -668,7 +688,7 @@ Lemma rf_sim_flush : forall pre cs blks x st blk st',
               pw_dts st' = (t0 + py_spd pd * Z.of_nat (length (blks ++ [blk])))%Z.
 Proof.
   intros pre cs blks x st blk st' HS Hne Hle Hdts Hpy.
-  pose proof HS as (HR & HF & Hout).
+  pose proof HS as (HR & HF & Hout & Hdl).
   assert (Hn0 : rf_len blk <> 0) by (unfold rf_len; destruct blk; [congruence|cbn [length]; lia]).
   unfold rf_flush, wm_fsr_wr_data.
   set (x' := rf_set_buf x blk).
@@ -717,7 +737,7 @@ Proof.
      rf_pvalid (length (map rc_off (cs ++ cs1))) pos0 ppos /\ rf_psi (map rc_off (cs ++ cs1)) pos0 ppos = pos1).
   { destruct omit eqn:Eom.
     - exists [], x', 0, st, 0%Z. rewrite app_nil_r. split; [reflexivity|]. split; [exact Hpy|].
-      split. { destruct HS' as (A & B & C). split; [exact A|]. split; [|exact C].
+      split. { destruct HS' as (A & B & C & D). split; [exact A|]. split; [|split; [exact C|exact D]].
                eapply rf_Forall2_impl; [|exact B]. intros a b Hab. rewrite <- (app_nil_r (map rc_off cs)). apply rf_chunk_rel_app. exact Hab. }
       split; [reflexivity|]. split; [reflexivity|]. split; [left; reflexivity|reflexivity].
     - destruct HR' as [Rbok Rtok Rty Rlvlen Rpos Rnz Rheads Rdhead Rlvls Rdts].
@@ -766,7 +786,8 @@ Proof.
                 rewrite Z.div_mul by (change (py_spd pd) with (Z.of_N (sg_spd d)); lia).
                 rewrite Nat2Z.id, nth_error_app2, Nat.sub_diag by lia. reflexivity.
              ++ rewrite <- nat_N_Z, N2Z.id. fold (rf_len blk). rewrite Hft, (R_dts _ _ _ HR). reflexivity.
-        * unfold rf_out. cbn [wm_fx_base]. rewrite Hout'. apply rf_filter_cons_mine; [|exact Hout].
+        * split; [|apply (rf_dl_cons cs c x' _); [eapply rf_dl_same; [exact Hdl|reflexivity]|exact Hext|exact Hout']].
+          unfold rf_out. cbn [wm_fx_base]. rewrite Hout'. apply rf_filter_cons_mine; [|exact Hout].
           unfold rf_mine. cbn [rc_tag rc_meta c]. rewrite Rty. fold sid. rewrite rf_meta_sid by lia. rewrite (N.eqb_refl sid). reflexivity.
       + right. rewrite Hmapoff, app_length. cbn [length]. lia.
       + rewrite Hmapoff, Hposeq, rf_psi_new by (cbn [length]; lia). cbn [nth]. symmetry. exact Htell. }
@@ -782,7 +803,7 @@ Proof.
   set (new := map (summ1 (sg_dtype d)) (wm_groups (N.to_nat (rf_len blk / sg_sdf d)) (N.to_nat (sg_sdf d)) blk)).
   assert (Hnewlen : Z.of_nat (length new) = (Z.of_nat (length blk) / py_sdf pd)%Z).
   { subst new. rewrite map_length, rf_groups_len, N_nat_Z, N2Z.inj_div. unfold rf_len. rewrite nat_N_Z. reflexivity. }
-  pose proof HS1 as (HR1 & HF1 & Hout1).
+  pose proof HS1 as (HR1 & HF1 & Hout1 & Hdl1).
   destruct (rf_sim_append _ x1 st1 1 ppos _ (pw_dts st1) (pw_dts st1) st1a new HR1 ltac:(lia) Hlo1 Eapp Hpv Hnewlen) as (dst & Hget & HR1a).
   cbv zeta in Hget, HR1a. rewrite Hf1 in Hget, HR1a. change (N.of_nat 1) with 1 in Hget, HR1a.
   rewrite Hget.
@@ -811,9 +832,9 @@ Proof.
     - injection Es1 as <-. exists [], x1a. rewrite app_nil_r. split; [reflexivity|exact HS1a]. }
   destruct Hfin as (cs2 & x2 & Ex2 & HS2). rewrite Ex2.
   exists (cs1 ++ cs2). rewrite app_assoc.
-  destruct HS2 as (HR2 & HF2 & Hout2).
+  destruct HS2 as (HR2 & HF2 & Hout2 & Hdl2).
   split.
-  - split; [|split; [exact HF2|exact Hout2]].
+  - split; [|split; [exact HF2|split; [exact Hout2|eapply rf_dl_same; [exact Hdl2|reflexivity]]]].
     cbn [wm_fx_set_fsr wm_fx_base].
     apply (rf_R_fsr_change _ x2 st2 _ (pw_dts st2 + py_spd pd)%Z HR2); [reflexivity|].
     cbn [wm_f_set_omit wm_f_set_block wm_f_ts]. rewrite (R_dts _ _ _ HR2). change (py_spd pd) with (Z.of_N (sg_spd d)). reflexivity.
